@@ -39,6 +39,11 @@ def jobs_for(tier, rng):
             job["injects"] = [{"v": gen.rand_values(rng, ns, vmax=4, exp=0),
                                "policy": [rng.randrange(na) for _ in range(ns)]} for _ in range(4)]
         jobs.append(job)
+    # thousands of dense states (judged in full)
+    for k, ng in enumerate([1500] if tier == "quick" else [1500, 5000]):
+        m = gen.union(rng, ng, PD=2, na=2, ne=2, rmax=3, v0max=2, plain=True, chain=False)
+        jobs.append({"mdp": m, "kind": "PI", "gamma": [1, 2], "eps": [1, 2], "test": "span", "reset": False, "max_eval_iter": 3,
+                     "mbs": 1024, "calls": [3], "cert": False, "tag": f"pi-dense{ng}", "min_sweeps": 2})
     # LARGE state spaces (> 20000 states per changed state): improvement steps that change one or two states out of
     # tens of thousands must not count as stability.  The trace is reduced exactly (solver_worker.quotient).
     big = [(20100, [3])] if tier == "quick" else [(20100, [3]), (20001, [2]), (40200, [3, 2]), (65600, [2, 2, 3])]
